@@ -266,6 +266,60 @@ var spaces = []space{
 	{"n4one", 4, false, labelSets[:2]},
 }
 
+// reorder: connection-order variants of an enumerated graph.  0: as enumerated; 1: reversed; 2: every node
+// gets a stream-end connection on condition "b" written BEFORE its other connections (an exit precedes the
+// edges that may close a cycle); 3: the same exits written AFTER them.
+func reorder(g *ggraph, variant int) *ggraph {
+	switch variant {
+	case 1:
+		for a, b := 0, len(g.edges)-1; a < b; a, b = a+1, b-1 {
+			g.edges[a], g.edges[b] = g.edges[b], g.edges[a]
+		}
+	case 2, 3:
+		var exits []gedge
+		for i := 0; i < g.n; i++ {
+			exits = append(exits, gedge{from: i, to: -1, cond: "b"})
+		}
+		if variant == 2 {
+			g.edges = append(exits, g.edges...)
+		} else {
+			g.edges = append(g.edges, exits...)
+		}
+	}
+	return g
+}
+
+// seqGraph decodes the m-th ORDERED sequence of k distinct connections over n nodes (condition "a"; targets:
+// the other nodes and the stream end); root = node 0.  The connection vocabulary has n*n entries.
+func seqGraph(n, k, m int) *ggraph {
+	type cn struct{ from, to int }
+	var vocab []cn
+	for i := 0; i < n; i++ {
+		for j := -1; j < n; j++ {
+			if j != i {
+				vocab = append(vocab, cn{i, j})
+			}
+		}
+	}
+	g := &ggraph{n: n, root: 0}
+	for pos := 0; pos < k; pos++ {
+		idx := m % len(vocab)
+		m /= len(vocab)
+		c := vocab[idx]
+		vocab = append(vocab[:idx:idx], vocab[idx+1:]...)
+		g.edges = append(g.edges, gedge{from: c.from, to: c.to, cond: "a"})
+	}
+	return g
+}
+
+func seqCount(n, k int) int {
+	v, c := n*n, 1
+	for pos := 0; pos < k; pos++ {
+		c *= v - pos
+	}
+	return c
+}
+
 // leaves: give every node without outgoing edge a `-> stream end` connection with probability, so that both
 // "unconnected" and connected leaves occur; deterministic in m.
 func withLeaves(g *ggraph, m int) *ggraph {
@@ -315,8 +369,19 @@ func randGraph(r *prng.R, n int, conds []string, needRoot bool) *ggraph {
 			}
 			g.edges = append(g.edges, gedge{from: i, to: j, cond: prng.Pick(r, conds)})
 		}
-		if deg == 0 || r.Chance(20) {
+		if deg == 0 || r.Chance(35) {
 			g.edges = append(g.edges, gedge{from: i, to: -1, cond: prng.Pick(r, conds)})
+		}
+	}
+	// connection order is free in the YAML: the edge order of a node is the order of its connections
+	switch r.Intn(4) {
+	case 0:
+		prng.Shuffle(r, g.edges)
+	case 1: // every stream-end connection first
+		sort.SliceStable(g.edges, func(a, b int) bool { return g.edges[a].to < 0 && g.edges[b].to >= 0 })
+	case 2: // reversed
+		for a, b := 0, len(g.edges)-1; a < b; a, b = a+1, b-1 {
+			g.edges[a], g.edges[b] = g.edges[b], g.edges[a]
 		}
 	}
 	return g
@@ -955,11 +1020,27 @@ func gen(r *prng.R, f proto.Flags, emit func(proto.Case)) {
 			total := enumCount(sp.n, sp.self, len(sp.labels))
 			every := 1 + total/300 // spread the crash budget of this space evenly
 			for m := 0; m < total; m++ {
-				g := withLeaves(enumGraph(sp.n, sp.self, sp.labels, m), m)
+				g := reorder(withLeaves(enumGraph(sp.n, sp.self, sp.labels, m), m), m%4)
 				mm := m
 				emit(respCase(next("b-"+sp.name+"-res-"), g, consts, bb, func() bool { return mm%every == 0 }))
 				if sp.n < 4 || mm%3 == 0 {
-					emit(reqCase(next("b-"+sp.name+"-req-"), withLeaves(enumGraph(sp.n, sp.self, sp.labels, m), m), consts))
+					emit(reqCase(next("b-"+sp.name+"-req-"), reorder(withLeaves(enumGraph(sp.n, sp.self, sp.labels, m), m), (m/3+2)%4), consts))
+				}
+			}
+		}
+		// every ORDERED sequence of <= 5 distinct connections over 3 processors (all connection orders), and of
+		// <= 4 over 4 processors, as request direction and as response direction
+		for _, nk := range [][2]int{{3, 1}, {3, 2}, {3, 3}, {3, 4}, {3, 5}, {4, 2}, {4, 3}, {4, 4}} {
+			total := seqCount(nk[0], nk[1])
+			for m := 0; m < total; m++ {
+				if nk[0] == 4 && nk[1] == 4 && m%2 == 1 {
+					continue
+				}
+				if m%2 == 0 {
+					emit(reqCase(next(fmt.Sprintf("b-seq%d-%d-req-", nk[0], nk[1])), seqGraph(nk[0], nk[1], m), consts[:1]))
+				} else {
+					mm := m
+					emit(respCase(next(fmt.Sprintf("b-seq%d-%d-res-", nk[0], nk[1])), seqGraph(nk[0], nk[1], m), consts[:1], bb, func() bool { return mm%97 == 1 }))
 				}
 			}
 		}
@@ -968,7 +1049,11 @@ func gen(r *prng.R, f proto.Flags, emit func(proto.Case)) {
 			rr := r.Fork()
 			sp := prng.Pick(rr, spaces)
 			m := rr.Intn(enumCount(sp.n, sp.self, len(sp.labels)))
-			g := withLeaves(enumGraph(sp.n, sp.self, sp.labels, m), m)
+			g := reorder(withLeaves(enumGraph(sp.n, sp.self, sp.labels, m), m), rr.Intn(4))
+			if rr.Chance(35) {
+				nk := prng.Pick(rr, [][2]int{{3, 3}, {3, 4}, {3, 5}, {4, 3}, {4, 4}, {4, 5}, {4, 6}})
+				g = seqGraph(nk[0], nk[1], rr.Intn(seqCount(nk[0], nk[1])))
+			}
 			if rr.Chance(70) {
 				emit(respCase(next("b-"+sp.name+"-res-"), g, consts, b, func() bool { return true }))
 			} else {
